@@ -86,6 +86,8 @@ LUA_POOL = {
     'sub/l0.lua': b'sx=1\n',
     'sub/l1.lua': b'sa=sb',
     'sub/deep/l0.lua': b'dx=1\ndy=2',
+    'l8.lua': b'r=1\rs=2\nt=3\r\n',                    # a lone CR inside a line, then CR LF: the lines of a file end at LF only
+    'l9.lua': b'm=[[a\rb]]\r',                           # lone CR inside a long string and as the last byte
     'a.lua.lua': b'dbl=1\n',
     GLYPH + 'lib.lua': b'glyph=1\n',                    # a file name with a PICO-8 glyph
     'sub/' + GLYPH + '.lua': b'subglyph=1',
@@ -109,6 +111,10 @@ CART_CODES = {
 CART_DIRS = {'t0': ['', 'sub/', 'sub/deep/'], 't1': ['', 'sub/'], 't2': [''], 't3': [''], 't4': [''], 't5': [''],
              't6': [''], 't7': [''], 't8': ['', 'sub/'], 't9': [''], 't10': [''], 't11': [''], 't' + GLYPH: ['']}
 MISSING = ['nope.lua', 'nope.p8', 'nope.p8.png', 'sub/nope.lua', 'l0.p8', 'dir.lua']     # dir.lua is a directory
+
+
+CARTS_ROOT = 'home/.lexaloffle/pico-8/carts'
+CART_DIR = {'c': 'c', 'carts': CARTS_ROOT + '/mygame'}     # where the including cart lives (case['where'])
 
 
 def p8_file(code):
@@ -150,6 +156,17 @@ def sandbox():
     fsobs.write_file(os.path.join(S, 'c', 'bad.p8'), b'not a cart\n')
     os.makedirs(os.path.join(S, 'home'), exist_ok=True)
     os.makedirs(os.path.join(S, 'c', 'dir.lua'), exist_ok=True)
+    # the same fixtures beside a cart that lives in a sub-folder of the PICO-8 carts folder (HOME = S/home), and
+    # decoys with the same names but other contents in the carts folder itself: a name is resolved against the
+    # including cart's own directory, not against the include root
+    import shutil
+    shutil.copytree(os.path.join(S, 'c'), os.path.join(S, CART_DIR['carts']))
+    for rel, data in LUA_POOL.items():
+        if '/' not in rel:
+            fsobs.write_file(os.path.join(S, CARTS_ROOT, rel), b'decoy_root=1\n')
+    for name in CART_CODES:
+        fsobs.write_file(os.path.join(S, CARTS_ROOT, name + '.p8'), p8_file(b'decoy_cart=1\n'))
+    fsobs.write_file(os.path.join(S, CARTS_ROOT, 'sub', 'l0.lua'), b'decoy_sub=1\n')
     SB['root'], SB['content'] = S, content
     SB['view'] = None
     SB['view_ok'] = []
@@ -167,7 +184,8 @@ def fs_view(S):
         from pico8.game.formatter.p8 import P8Formatter
         from pico8.game.formatter.p8png import P8PNGFormatter
         files, carts = [], []
-        for root, _, fs in os.walk(os.path.join(S, 'c')):
+        walk = list(os.walk(os.path.join(S, 'c'))) + list(os.walk(os.path.join(S, CARTS_ROOT)))
+        for root, _, fs in walk:
             for f in sorted(fs):
                 if f == 'host.p8':
                     continue
@@ -181,6 +199,10 @@ def fs_view(S):
                             ls = list(cls.from_file(fh, filename=full, do_includes=False).lua.to_lines())
                         carts.append((full, ls))
                         rel = os.path.relpath(full, os.path.join(S, 'c'))
+                        if full.startswith(os.path.join(S, CART_DIR['carts']) + '/'):
+                            rel = os.path.relpath(full, os.path.join(S, CART_DIR['carts']))
+                        elif not full.startswith(os.path.join(S, 'c') + '/'):
+                            rel = None                    # a decoy
                         if rel in SB['content']:
                             code = SB['content'][rel][1]
                             ok = b''.join(ls) == code
@@ -304,6 +326,8 @@ def generate(tier, rng):
         c = {'kind': 'load', 'host': host, 'names': sorted(set(used)), 'mode': rng.choice(['abs', 'abs', 'rel', 'relc'])}
         if host and host[-1] and rng.random() < 0.08:
             c['final_nl'] = False
+        if i % 4 == 3:
+            c['where'] = 'carts'       # the including cart lives in a sub-folder of the PICO-8 carts folder
         yield c
 
 
@@ -336,6 +360,12 @@ def corpus_cases():
            'names': [GLYPH + 'lib.lua', 'sub/' + GLYPH + '.lua'], 'mode': 'abs'}
     yield {'kind': 'load', 'host': ['#include t' + GLYPH + '.p8:1', '#include t' + GLYPH + '.p8.png:0', '#include ' + GLYPH + GLYPH + '.lua'],
            'names': ['t' + GLYPH + '.p8', 't' + GLYPH + '.p8.png'], 'mode': 'rel'}
+    # a cart in a sub-folder of the PICO-8 carts folder: names resolve beside the cart, not in the carts folder (decoys there)
+    yield {'kind': 'load', 'host': ['a=1', '#include l0.lua', '#include sub/l0.lua', '#include t0.p8:1', 'b=2'],
+           'names': ['l0.lua', 'sub/l0.lua', 't0.p8'], 'mode': 'abs', 'where': 'carts'}
+    yield {'kind': 'load', 'host': ['#include l1.lua', '#include t1.p8.png'], 'names': ['l1.lua', 't1.p8.png'], 'mode': 'relc', 'where': 'carts'}
+    # lone carriage returns in an included file
+    yield {'kind': 'load', 'host': ['a=1', '#include l8.lua', '#include l9.lua', 'b=2'], 'names': ['l8.lua', 'l9.lua'], 'mode': 'abs'}
     yield {'kind': 'nofile', 'host': ['x=1', '#include l0.lua']}
     yield {'kind': 'nofile', 'host': ['x=1', 'y=2']}
 
@@ -382,8 +412,9 @@ def _run_impl(case):
             except Exception as e:  # noqa
                 obs['pi_err'] = lib.exc_name(e)
         return obs
-    host_path = os.path.join(S, 'c', 'host.p8')
-    cwd, arg = {'abs': (S, host_path), 'rel': (S, 'c/host.p8'), 'relc': (os.path.join(S, 'c'), 'host.p8')}[case['mode']]
+    D = os.path.join(S, CART_DIR[case.get('where', 'c')])
+    host_path = os.path.join(D, 'host.p8')
+    cwd, arg = {'abs': (S, host_path), 'rel': (S, os.path.relpath(host_path, S)), 'relc': (D, 'host.p8')}[case['mode']]
     if case.get('final_nl', True):
         data = fsobs.p8_text(''.join(x + '\n' for x in case['host']).encode('utf-8'))
     else:       # the file ends inside its code section, without a final newline
@@ -407,8 +438,8 @@ def _run_impl(case):
     offered = []
     for name in case['names']:
         for variant in {name, './' + name, 'sub/../' + name}:
-            full = os.path.normpath(os.path.join(S, 'c', variant))
-            rel = os.path.relpath(full, os.path.join(S, 'c'))
+            full = os.path.normpath(os.path.join(D, variant))
+            rel = os.path.relpath(full, D)
             if os.path.isfile(full) and rel in SB['content']:
                 k, text = SB['content'][rel]
                 offered.append((variant, k, text))
